@@ -949,6 +949,64 @@ for cname in list(classes):
                     for lit in lits:
                         composites.append(dict(cls=cname, prop=node.name, name=lit, stores=paths))
 out["composites"] = composites
+# ---- attribute stores inside the methods of ctypes classes: `self.X = …` and `setattr(self, <name>, …)`; a name that is not a
+# ctypes field / property is silently accepted by ctypes and lands in the instance __dict__, not in the C structure
+attr_stores, setter_props = [], []
+def _resolve_names(expr, fnode):
+    """possible string values of an expression inside fnode: literals, 'lit' + loopvar over a literal dict/list/tuple"""
+    if isinstance(expr, ast.Constant) and isinstance(expr.value, str):
+        return [expr.value]
+    if isinstance(expr, ast.BinOp) and isinstance(expr.op, ast.Add):
+        l, r = _resolve_names(expr.left, fnode), _resolve_names(expr.right, fnode)
+        if l is not None and r is not None:
+            return [a + b for a in l for b in r]
+        return None
+    if isinstance(expr, ast.Name):
+        vals = None
+        for n in ast.walk(fnode):
+            if isinstance(n, ast.For):
+                tgts = [t.id for t in ast.walk(n.target) if isinstance(t, ast.Name)]
+                if expr.id in tgts:
+                    it = n.iter
+                    if isinstance(it, ast.Call) and isinstance(it.func, ast.Attribute) and it.func.attr in ("items", "keys") and isinstance(it.func.value, ast.Name):
+                        for a in ast.walk(fnode):
+                            if isinstance(a, ast.Assign) and any(isinstance(t, ast.Name) and t.id == it.func.value.id for t in a.targets) and isinstance(a.value, ast.Dict):
+                                ks = [k.value for k in a.value.keys if isinstance(k, ast.Constant) and isinstance(k.value, str)]
+                                if len(ks) == len(a.value.keys):
+                                    vals = ks
+                    elif isinstance(it, (ast.List, ast.Tuple)) and all(isinstance(e, ast.Constant) and isinstance(e.value, str) for e in it.elts):
+                        vals = [e.value for e in it.elts]
+        return vals
+    return None
+for cname in list(classes):
+    cls = None
+    for m in mods:
+        if isinstance(getattr(m, cname, None), type):
+            cls = getattr(m, cname); break
+    if cls is None: continue
+    for pn, pv in vars(cls).items():
+        if isinstance(pv, property) and pv.fset is not None:
+            setter_props.append([cname, pn])
+    try:
+        tree = ast.parse(textwrap.dedent(inspect.getsource(cls)))
+    except Exception:
+        continue
+    for fnode in tree.body[0].body:
+        if not isinstance(fnode, ast.FunctionDef): continue
+        selfname = fnode.args.args[0].arg if fnode.args.args else "self"
+        for node in ast.walk(fnode):
+            if isinstance(node, (ast.Assign, ast.AugAssign)):
+                for t in (node.targets if isinstance(node, ast.Assign) else [node.target]):
+                    for tt in ([t] if not isinstance(t, ast.Tuple) else t.elts):
+                        if isinstance(tt, ast.Attribute) and isinstance(tt.value, ast.Name) and tt.value.id == selfname:
+                            attr_stores.append([cname, fnode.name, tt.attr])
+            if isinstance(node, ast.Call) and isinstance(node.func, ast.Name) and node.func.id == "setattr" and len(node.args) >= 2 \
+               and isinstance(node.args[0], ast.Name) and node.args[0].id == selfname:
+                nm = _resolve_names(node.args[1], fnode)
+                for x in (nm if nm is not None else ["?" + ast.unparse(node.args[1])[:50]]):
+                    attr_stores.append([cname, fnode.name, x])
+out["attr_stores"] = [list(x) for x in sorted({tuple(x) for x in attr_stores})]
+out["setter_props"] = setter_props
 out["ffi_decls"] = decls
 out["ffi_calls"] = calls
 out["ffi_dynamic"] = dynamic
@@ -1045,6 +1103,11 @@ def lean_options(cs, py, ref):
           for p in py["props"] if p["role"] == "set" for dn in p["dicts"]]
     L.append("/-- the normalisation each option setter applies to a string (AST): ⟨class, property, dictionary, lower-cases, characters stripped⟩ -/")
     L.append("def pySetterSpecs : List SetterSpec := [\n%s\n]\n" % ",\n".join(sp))
+    L.append("/-- every attribute a method of a ctypes class stores on `self` (assignments and resolvable setattr; `?…` = not resolvable): (class, method, attribute) -/")
+    L.append("def pyAttrStores : List Triple := [\n%s\n]\n" % ",\n".join("  (%s, %s, %s)" % tuple(lstr(x) for x in r) for r in py.get("attr_stores", [])))
+    L.append("/-- properties with a setter: (class, property) -/")
+    L.append("def pySetterProps : List (Name × Name) := [\n%s\n]\n" % ",\n".join("  (%s, %s)" % (lstr(a), lstr(b)) for a, b in py.get("setter_props", [])))
+    L.append("def pyAttrStoreCount : Nat := %d" % len(py.get("attr_stores", [])))
     L.append("/-- literal option names of property setters and what their branch assigns: (class, property, name, [(attribute path, literal or ?)]) -/")
     cr = ["  (%s, %s, %s, [%s])" % (lstr(x["cls"]), lstr(x["prop"]), lstr(x["name"]), ", ".join("(%s, %s)" % (lstr(a), lstr(b)) for a, b in x["stores"]))
           for x in py.get("composites", [])]
@@ -1130,9 +1193,13 @@ def lean_ref(ref, findings):
     L.append("/-- binary error codes: (enumerator, a phrase the Python message for that code must contain, lower case) -/")
     L.append("def warnKeywords : List (Name × Name) := [\n%s\n]\n" % ",\n".join("  (%s, %s)" % (lstr(k), lstr(v)) for k, v in wk.items()))
     L.append("def floorDescriptors : Nat := %d\ndef floorWarnings : Nat := %d\n" % (fl.get("descriptors", 0), fl.get("warnings", 0)))
+    po = ref["opt"].get("python_only_attributes", {})
+    L.append("/-- attributes that are deliberately Python-only (keep-alive references to callbacks, archive bookkeeping): (class, attribute) -/")
+    L.append("def pyOnlyAttrs : List (Name × Name) := [\n%s\n]\n" % ",\n".join("  (%s, %s)" % (lstr(c_), lstr(a_)) for c_, l_ in po.items() for a_ in l_))
+    L.append("def floorAttrStores : Nat := %d\n" % fl.get("attr_stores", 0))
     L.append("def floorProtos : Nat := %d\ndef floorCallbacks : Nat := %d\ndef floorRestypeDecls : Nat := %d\ndef floorCalls : Nat := %d\n"
              % (fl.get("protos", 0), fl.get("callbacks", 0), fl.get("restype_decls", 0), fl.get("calls", 0)))
-    ex_name, ex_shadow, ex_layout, ex_call = [], [], [], []
+    ex_name, ex_shadow, ex_layout, ex_call, ex_store = [], [], [], [], []
     for e in findings:
         if e.get("status", "known") != "known":
             continue
@@ -1141,6 +1208,8 @@ def lean_ref(ref, findings):
                 ex_name.append("  (%s, %s, %s)" % (lstr(x["struct"]), lstr(x["py"]), lstr(x["c"])))
             elif x["kind"] == "layout":
                 ex_layout.append("  (%s, %s, %s, .%s)" % (lstr(x["struct"]), lstr(x["py"]), lstr(x["c"]), x["why"]))
+            elif x["kind"] == "store":
+                ex_store.append("  (%s, %s)" % (lstr(x["class"]), lstr(x["attr"])))
             elif x["kind"] == "call":
                 ex_call.append("  (%s, %s)" % (lstr(x["fn"]), lstr(x["site"])))
             elif x["kind"] == "shadow":
@@ -1153,6 +1222,8 @@ def lean_ref(ref, findings):
     L.append("def knownLayoutExceptions : List Bad := [%s]\n" % ("\n" + ",\n".join(ex_layout) + "\n" if ex_layout else ""))
     L.append("/-- known findings: ctypes fields shadowing a property of the same name: (class, field) -/")
     L.append("def knownShadowExceptions : List (Name × Name) := [%s]\n" % ("\n" + ",\n".join(ex_shadow) + "\n" if ex_shadow else ""))
+    L.append("/-- known findings: attribute stores that miss the C structure: (class, attribute) -/")
+    L.append("def knownStoreExceptions : List (Name × Name) := [%s]\n" % ("\n" + ",\n".join(ex_store) + "\n" if ex_store else ""))
     L.append("/-- known findings: foreign call sites that are not sound: (function, module:scope) -/")
     L.append("def knownCallExceptions : List (Name × Name) := [%s]\n" % ("\n" + ",\n".join(ex_call) + "\n" if ex_call else ""))
     L.append("end RV.Gen.C18\n")
